@@ -512,6 +512,27 @@ async def D16():
     return ok, (r1, r2, r3, r4)
 
 
+async def D16b():
+    """a mapping whose first database declares no tables must still be read as databases → tables → columns"""
+    s = RecSession(schema={"empty_first": {}, "db2": {"t": {"c": "INT"}}})
+    srv = mkserver([s])
+    a = Peer(srv)
+    await a.login()
+
+    async def q(sql):
+        out = await a.cmd(b"\x03" + sql)
+        try:
+            rs = decode_resultset([p for _, p in out], a.caps)
+            return [decode_text_row(r, len(rs["cols"]))[0] for r in rs["rows"]]
+        except Bad as e:
+            return ("bad", str(e), out[:1])
+    r1 = await q(b"SHOW TABLES FROM db2")
+    r2 = await q(b"SHOW COLUMNS FROM db2.t")
+    r3 = await q(b"SELECT schema_name FROM information_schema.schemata WHERE schema_name = 'db2'")
+    await a.finish()
+    return r1 == [b"t"] and r2 == [b"c"] and r3 == [b"db2"], (r1, r2, r3)
+
+
 # --------------------------------------------------------------------------- C18
 async def D18():
     ids = {LocalControl(server_id=0).server_id for _ in range(8)}
@@ -523,7 +544,7 @@ ALL = {
     "D5c": ("C05", D5c), "D6": ("C06", D6), "D7": ("C07", D7), "D9a": ("C09", D9a), "D9b": ("C09", D9b),
     "D9c": ("C09", D9c), "D9d": ("C09", D9d), "D10a": ("C03", D10a), "D10b": ("C03", D10b),
     "D10c": ("C03", D10c), "D11": ("C11", D11), "D13": ("C13", D13), "D13b": ("C13", D13b), "D13c": ("C13", D13c), "D14": ("C14", D14), "D15": ("C15", D15),
-    "D16": ("C16", D16), "D18": ("C18", D18),
+    "D16": ("C16", D16), "D16b": ("C16", D16b), "D18": ("C18", D18),
 }
 
 
